@@ -155,6 +155,26 @@ def run(ctx, B):
         for j in range(len(cn), len(cn) + 3):
             if not (rc["flags"][j] & F_ERR):
                 V("crystal|unknown-name-accepted|%d" % (j - len(cn)), "unknown crystal name accepted")
+        # the catalogue stays addressable in every way after the documented explicit insertion (one crystal that sorts first / in the middle / last, and two in a row)
+        for ins in (["0_first"], ["Mm_middle"], ["zz_last"], ["0_first", "00_before"], ["zz_last", "zzz_after", "Aa"]):
+            Y = xrl.Xrl("plain", cfg, build=B, nproc=1)
+            ri, _ = Y.op("builtin_insert", "s", ins)
+            r2, l2 = Y.op("CrystalList", "i", [1])
+            cn2 = l2[0].split("\t")[1:]
+            r3, l3 = Y.op("Crystal_GetCrystal", "s", cn2); b3 = xrl.parse_blob_lines(l3)
+            ctx.add(evaluations=len(ins) + 1 + len(cn2))
+            tag = "+".join(ins)
+            if any(v != 1 for v in ri["v0"]):
+                V("crystal|after-insert|%s|refused" % tag, "inserting %r into the built-in collection: return values %r" % (ins, ri["v0"].tolist()))
+            if sorted(cn2) != sorted(cn + ins) or cn2 != sorted(cn2) or len(set(cn2)) != len(cn2):
+                V("crystal|after-insert|%s|list" % tag, "after inserting %r the crystal list is not the ascending, duplicate-free union: %r" % (ins, cn2[:6]))
+            for j, nm in enumerate(cn2):
+                f = b3.get(j)
+                if f is None or f[0] != nm:
+                    V("crystal|after-insert|%s|lookup|%s" % (tag, nm), "after inserting %r the listed crystal %r cannot be looked up by name" % (ins, nm))
+                elif nm in cn and f[1:] != bc[cn.index(nm)][1:]:
+                    V("crystal|after-insert|%s|content|%s" % (tag, nm), "after inserting %r the built-in crystal %r reads differently" % (ins, nm))
+            Y.close()
         # ------------------------------------------------------------ deep copies: all entries x all 3! release orders (plain: leak count, asan: memory errors)
         for variant in ("plain", "asan"):
             Y = X if variant == "plain" else xrl.Xrl("asan", cfg, build=B)
